@@ -41,6 +41,10 @@ type Step struct {
 	Len      int    `json:"len"`
 	Opts     []byte `json:"opts"`  // raw SYN options (nil = MSS 1460)
 	TSFix    bool   `json:"tsfix"` // on non-SYN segments: carry a timestamp option if the SYN-ACK negotiated it
+	// Twice: the segment arrives twice back to back (a duplicate made by the network): the second
+	// copy is injected before the stack had any time to act on the first
+	Twice  bool `json:"twice,omitempty"`
+	nowait bool // first copy of a Twice step
 }
 
 type Script struct {
@@ -119,7 +123,17 @@ func runPassive(sc Script) *evid.Failure {
 			tap.Inject(0x0800, codec.BuildIPv4(codec.IPv4Hdr{Src: src, Dst: dst, Proto: codec.ProtoTCP, ID: uint16(len(inj))}, l4))
 		}
 	}
+	var steps []Step
 	for _, st := range sc.Steps {
+		if st.Twice {
+			first := st
+			first.nowait = true
+			steps = append(steps, first)
+			evid.Label("step:arrives-twice-back-to-back")
+		}
+		steps = append(steps, st)
+	}
+	for _, st := range steps {
 		t, k := get(st.Peer, st.Closed)
 		seg := codec.TCPSeg{SrcPort: uint16(5000 + st.Peer), DstPort: listenPort, Flags: st.Flags, Wnd: 30000}
 		if st.Closed {
@@ -191,6 +205,9 @@ func runPassive(sc Script) *evid.Failure {
 		rec.at = time.Now()
 		send(seg)
 		inj = append(inj, rec)
+		if st.nowait {
+			continue
+		}
 		if st.Flags == codec.SYN && !st.Closed {
 			// learn the stack's ISS for this tuple from the SYN-ACK
 			wait := 500 * time.Millisecond
@@ -623,6 +640,9 @@ func genPassive(rt *rapid.T) Script {
 			st.AckMode = rapid.IntRange(0, 5).Draw(rt, "ackmode")
 			st.AckVal = rapid.Uint32().Draw(rt, "ackval")
 			st.Len = rapid.SampledFrom([]int{0, 0, 3}).Draw(rt, "len")
+		}
+		if tw := rapid.IntRange(0, 11).Draw(rt, "twice"); tw == 0 || (kind == "syn" && tw < 4) {
+			st.Twice = true
 		}
 		if st.Flags&codec.ACK == 0 && rapid.IntRange(0, 2).Draw(rt, "staleack") == 0 {
 			st.StaleAck = true
